@@ -943,6 +943,7 @@ func (s *Store) patch(obj client.Object, patch client.Patch, po *client.PatchOpt
 	notFound := kerrors.NewNotFound(schema.GroupResource{Group: gvk.Group, Resource: strings.ToLower(gvk.Kind)}, k.Name)
 	conflict := kerrors.NewConflict(schema.GroupResource{Group: gvk.Group, Resource: strings.ToLower(gvk.Kind)}, k.Name, fmt.Errorf("object has been modified"))
 	var next map[string]any
+	clearsManagers := false
 	switch c.PatchType {
 	case "merge":
 		if !ok {
@@ -986,11 +987,10 @@ func (s *Store) patch(obj client.Object, patch client.Patch, po *client.PatchOpt
 			nmd := mdOf(next)
 			if mf, _ := nmd["managedFields"].([]any); len(mf) == 1 {
 				if em, _ := mf[0].(map[string]any); em != nil && len(em) == 0 {
-					// all managers cleared
+					// all managers cleared (the entry is reset only once the patch is accepted: below, right
+					// before commit — a request rejected with Conflict/Invalid has no effect)
 					delete(nmd, "managedFields")
-					e.applied = map[string]map[string]any{}
-					e.appliedStatus = map[string]map[string]any{}
-					e.bfa = true
+					clearsManagers = true
 				}
 			}
 		}
@@ -1141,6 +1141,11 @@ func (s *Store) patch(obj client.Object, patch client.Patch, po *client.PatchOpt
 			s.mu.Unlock()
 			return s.end(&c, o, err)
 		}
+	}
+	if clearsManagers && !c.DryRun {
+		e.applied = map[string]map[string]any{}
+		e.appliedStatus = map[string]map[string]any{}
+		e.bfa = true
 	}
 	s.commit(k, e, next, &c)
 	res := deepCopyMap(e.obj)
